@@ -32,6 +32,12 @@ FIXED = [
  ("KF-C15-3", "C15", "C15-one-pass-change-window-after-drain", "fix: remote rejects window changes and searches for one_pass",
   "stream_change_window on a one_pass stream after its messages were drained accessed drained messages ('msg_idx - drained' underflow, panic, connection thread dies)",
   "replays/examples/C15-one-pass-change-window-after-drain.json"),
+ ("KF-C15-4", "C15", "C15-search-huge-max-results", "fix: remote stream_search with a huge max_results",
+  "'stream_search <id> {\"max_results\":9223372036854775807}' used the client's max_results as Vec capacity: 'capacity overflow' panic, the connection thread died without a reply", "replays/examples/C15-search-huge-max-results.json"),
+ ("KF-C15-5", "C15", "C15-fs-corrupt-archive", "fix: remote fs cmds on a corrupt archive",
+  "'fs {\"cmd\":\"stat\"|\"readDirectory\",\"path\":\"<existing but corrupt>.zip!/x\"}' panicked on an unwrap of the archive listing; the connection thread died without a reply", "replays/examples/C15-fs-corrupt-zip.json"),
+ ("KF-C15-6", "C15", "C15-binary-search-huge-time", "fix: remote stream_binary_search with a huge time_ms",
+  "'stream_binary_search <id> time_ms=18446744073709551615' overflowed '1000 * time_ms' (attempt to multiply with overflow in builds with overflow checks); the connection thread died without a reply", None),
  ("KF-C03-1", "C03", "C03-flst-announced-size-allocation", "fix: file transfer plugin limits the upfront allocation",
   "a file-transfer announcement (FLST) with corrupt package count x package size made the plugin panic with 'attempt to multiply with overflow' / 'capacity overflow', request gigabytes for a 128-byte input, or abort the process on a failed terabyte allocation", None),
  ("KF-C03-2", "C03", "C03-verbose-ctrl-response-short-first-arg", "fix: don't panic on ctrl response msgs",
@@ -72,6 +78,10 @@ FIXED = [
  ("KF-C17-1", "C17", "C17-duplicate-non-last-package", "fix: file transfer plugin tolerates duplicates",
   "a duplicate of a data package other than the last one (adjacent or delayed) made the transfer end as 'Incomplete file transfer. Missed package n' although every package arrived in order (30-byte file in 3 packages of 10, package 1 duplicated): the duplicate was counted towards the 'all packages received' rule",
   "replays/examples/C17-duplicate-non-last-package.json"),
+ ("KF-C17-2", "C17", "C17-duplicate-announcement", "fix: file transfer plugin tolerates a duplicated FLST",
+  "a duplicate of the announcement (FLST) of an ongoing transfer started a second transfer entry; with the duplicate arriving after two data packages the packages were split between both entries and neither became complete although every package arrived in order (adjacent duplicate: a phantom incomplete entry besides the complete one)", "replays/examples/C17-duplicate-announcement.json"),
+ ("KF-C17-3", "C17", "C17-autosave-follows-dangling-symlink", "fix: file transfer auto save doesn't follow a dangling symlink",
+  "automatic saving checked 'path.exists()' and then used File::create: a dangling symbolic link with the file's base name inside the auto-save directory does not 'exist', so the file was written through the link to a location outside the configured directory", "replays/examples/C17-autosave-dangling-symlink.json"),
  ("KF-LC-1", "C05", "LC-assert-newer-lifecycle-confirmed-before-older", "fix: don't assert if a lifecycle that was confirmed",
   "lifecycle detection panicked (assert 'buffered_lcs does not contain', lifecycle/mod.rs) when a lifecycle that was already confirmed had to be merged into the still buffered previous lifecycle of the same ECU (5-message trace: ts 0 @200.0 s, ts 37.6 ms @200.06 s, ts 0 @227.8 s, ts 119.4 s @254.3 s, ts 172.1 s @307.0 s); every property that runs the stage (C03, C05-C08, C10, C13-C16, C19) saw the thread die", None),
  ("KF-C07-1", "C07", "C07-phantom-lifecycle", "fix: remove a merged lifecycle from the published lifecycles",
